@@ -104,14 +104,26 @@ inline bool close(double a, double b, double tol, double scale = 1.0){
 	if(std::isnan(a) || std::isnan(b)) return false;
 	return std::fabs(a - b) <= tol * (scale + std::fabs(a) + std::fabs(b));
 }
+// matrices / vectors are compared relative to their largest entry (entries that cancel to ~0 carry
+// absolute rounding noise proportional to the scale of the whole result)
 template<class MA, class MB> bool closeMat(MA const& a, MB const& b, double tol){
 	if(a.size1() != b.size1() || a.size2() != b.size2()) return false;
-	for(std::size_t i = 0; i < a.size1(); ++i) for(std::size_t j = 0; j < a.size2(); ++j) if(!close(a(i, j), b(i, j), tol)) return false;
+	double scale = 0;
+	for(std::size_t i = 0; i < a.size1(); ++i) for(std::size_t j = 0; j < a.size2(); ++j){
+		if(std::isnan(a(i, j)) || std::isnan(b(i, j))) return false;
+		scale = std::max(scale, std::max(std::fabs(a(i, j)), std::fabs(b(i, j))));
+	}
+	for(std::size_t i = 0; i < a.size1(); ++i) for(std::size_t j = 0; j < a.size2(); ++j) if(!close(a(i, j), b(i, j), tol, 1.0 + scale)) return false;
 	return true;
 }
 template<class VA, class VB> bool closeVec(VA const& a, VB const& b, double tol){
 	if(a.size() != b.size()) return false;
-	for(std::size_t i = 0; i < a.size(); ++i) if(!close(a(i), b(i), tol)) return false;
+	double scale = 0;
+	for(std::size_t i = 0; i < a.size(); ++i){
+		if(std::isnan(a(i)) || std::isnan(b(i))) return false;
+		scale = std::max(scale, std::max(std::fabs(a(i)), std::fabs(b(i))));
+	}
+	for(std::size_t i = 0; i < a.size(); ++i) if(!close(a(i), b(i), tol, 1.0 + scale)) return false;
 	return true;
 }
 }
